@@ -95,6 +95,10 @@ def gen_fa(rng, cls=None, max_states=5, max_syms=3, pool=None, eps=True):
         for q in states:
             if q not in finals and rng.random() < 0.2:
                 churn.append(["f", q])
+        if cls != "D":
+            for q in states:
+                if q not in starts and rng.random() < 0.15:
+                    churn.append(["s", q])
     return {"cls": cls, "svals": svals, "symvals": symvals, "starts": starts, "finals": finals,
             "delta": delta, "extra_syms": extra_syms, "iso": iso, "churn": churn}
 
@@ -135,11 +139,15 @@ def build(spec):
     for item in spec.get("churn", []):
         if item[0] == "t":
             fa.add_transition(sv[item[1]], yv[item[2]], sv[item[3]])
+        elif item[0] == "s":
+            fa.add_start_state(sv[item[1]])
         else:
             fa.add_final_state(sv[item[1]])
     for item in spec.get("churn", []):
         if item[0] == "t":
             fa.remove_transition(sv[item[1]], yv[item[2]], sv[item[3]])
+        elif item[0] == "s":
+            fa.remove_start_state(sv[item[1]])
         else:
             fa.remove_final_state(sv[item[1]])
     return fa
